@@ -62,4 +62,88 @@ theorem wgcounter_done_guards : guardsOf "WgCounter.Done" =
 theorem fifo_len_skeleton : skeletonOf "Queue.Len" =
     ["mutex:q.mx:RLock", "mutex:q.mx:RUnlock", "atomic:q.writeCount:Load", "atomic:q.readCount:Load"] := by decide
 
+-- ---------------------------------------------------------------- call orders (regenerated `calls`)
+/-- position of the first occurrence -/
+def posOf (x : String) (l : List String) : Nat := (l.findIdx? (· == x)).getD l.length
+
+/-- a occurs, b occurs, and the first a precedes the first b -/
+def before (a b : String) (l : List String) : Bool := posOf a l < posOf b l && posOf b l < l.length
+
+/-- the runner: worker function, Finished, Close, return the node, release the slot, count, notify -/
+theorem runner_calls : callsOf "worker.initPoolNode$1" =
+    ["workerFunc", "changeStatus", "Close", "Is", "sendError", "freePoolNode", "release", "incCompleted", "notifyToPullNextJobs"] := by decide
+
+def addFns : List String :=
+  ["queue.Add", "queue.AddAll", "errorQueue.Add", "errorQueue.AddAll", "resultQueue.Add", "resultQueue.AddAll",
+   "priorityQueue.Add", "priorityQueue.AddAll", "errorPriorityQueue.Add", "errorPriorityQueue.AddAll",
+   "resultPriorityQueue.Add", "resultPriorityQueue.AddAll"]
+
+/-- all 12 submission paths: Queued is stored before the job becomes visible; the submission is counted and
+    the event loop notified after the enqueue -/
+theorem queued_before_enqueue : addFns.all (fun f => before "changeStatus" "Enqueue" (callsOf f)) = true := by decide
+theorem notify_after_enqueue : addFns.all (fun f => before "Enqueue" "incSubmitted" (callsOf f) && before "incSubmitted" "notifyToPullNextJobs" (callsOf f)) = true := by decide
+theorem persistent_add_calls : callsOf "persistentQueue.Add" =
+    ["newJob", "loadJobConfigs", "configs", "Json", "Enqueue", "Close", "incSubmitted", "Metrics", "notifyToPullNextJobs"] := by decide
+
+theorem process_next_job_calls : callsOf "worker.processNextJob" =
+    ["reserve", "next", "release", "Errorf", "DequeueWithAckId", "Dequeue", "release", "parseToJob", "release", "release",
+     "setInternalQueue", "release", "claim", "release", "setAckId", "sendToNextChannel"] := by decide
+
+theorem event_loop_calls : callsOf "worker.goEventLoop$1" =
+    ["IsRunning", "Load", "Load", "Len", "processNextJob", "sendError", "releaseWaiters", "Load"] := by decide
+
+theorem pause_calls : callsOf "worker.pause" = ["Load", "Store", "releaseWaiters", "Load"] := by decide
+theorem pause_and_wait_calls : callsOf "worker.PauseAndWait" = ["Lock", "Unlock", "pause", "WaitUntilFinished"] := by decide
+theorem stop_calls : callsOf "worker.stop" =
+    ["Load", "pause", "WaitUntilFinished", "WaitUntilFinished", "cancel", "Store", "stopTickers", "closeChannels", "stopAndRemoveAllWorkers"] := by decide
+theorem restart_calls : callsOf "worker.Restart" =
+    ["Lock", "Unlock", "Load", "pause", "WaitUntilFinished", "stopAndRemoveAllWorkers", "WaitUntilFinished", "stopAndRemoveAllWorkers",
+     "stopTickers", "closeChannels", "Lock", "make", "make", "cancel", "WithCancel", "Unlock", "run"] := by decide
+theorem run_calls : callsOf "worker.run" =
+    ["notifyToPullNextJobs", "Store", "goEventLoop", "goRemoveIdleWorkers", "goListenToContext", "PushNode", "initPoolNode"] := by decide
+theorem listener_calls : callsOf "worker.goListenToContext$1" = ["Done", "Lock", "Unlock", "RLock", "RUnlock", "stop"] := by decide
+
+theorem job_close_calls : callsOf "job.Close" = ["tryClose", "Done", "ack"] := by decide
+theorem result_group_close_calls : callsOf "resultGroupJob.Close" = ["tryClose", "ack", "Done", "Close"] ∧
+    callsOf "errorGroupJob.Close" = ["tryClose", "ack", "Done", "Close"] ∧ callsOf "groupJob.Close" = ["tryClose", "ack", "Done"] := by decide
+theorem single_close_calls : callsOf "errorJob.Close" = ["Close", "Close"] ∧ callsOf "resultJob.Close" = ["Close", "Close"] := by decide
+theorem purge_calls : callsOf "externalBaseQueue.Purge" = ["Purge", "notifyToPullNextJobs", "Dequeue", "Close", "notifyToPullNextJobs"] := by decide
+
+theorem free_pool_node_calls : callsOf "worker.freePoolNode" =
+    ["UpdateLastUsed", "Len", "NumConcurrency", "Len", "numMinIdleWorkers", "PushNode", "Stop", "Put"] := by decide
+theorem reaper_calls : callsOf "worker.goRemoveIdleWorkers$1" =
+    ["numMinIdleWorkers", "Len", "NodeSlice", "len", "Before", "Add", "GetLastUsed", "Now", "Remove", "Stop", "Put"] := by decide
+theorem stop_all_calls : callsOf "worker.stopAndRemoveAllWorkers" = ["NodeSlice", "Remove", "Stop", "Put"] := by decide
+theorem tune_pool_calls : callsOf "worker.TunePool" =
+    ["Load", "Load", "withSafeConcurrency", "Store", "notifyToPullNextJobs", "numMinIdleWorkers", "Len", "PopBack", "Remove", "Stop", "Put"] := by decide
+
+theorem wrapper_calls : callsOf "NewWorker$1" = ["WithSafe", "incFailed", "sendError", "incSuccessful"] ∧
+    callsOf "NewErrWorker$1" = ["WithSafe", "SelectError", "sendError", "sendError", "incFailed", "incSuccessful"] ∧
+    callsOf "NewResultWorker$1" = ["WithSafe", "SelectError", "sendError", "sendError", "incFailed", "incSuccessful"] := by decide
+
+-- ---------------------------------------------------------------- containers: every operation is one critical section
+theorem fifo_lock_skeletons :
+    skeletonOf "Queue.Enqueue" = ["atomic:q.closed:Load", "mutex:q.mx:Lock", "mutex:q.mx:Unlock", "atomic:q.writeCount:Add", "atomic:q.writeCount:Add"] ∧
+    skeletonOf "Queue.Dequeue" = ["mutex:q.mx:Lock", "mutex:q.mx:Unlock", "atomic:q.readCount:Add", "atomic:q.readCount:Add"] ∧
+    skeletonOf "Queue.Purge" = ["mutex:q.mx:Lock", "mutex:q.mx:Unlock", "atomic:q.readCount:Store", "atomic:q.writeCount:Store"] ∧
+    skeletonOf "Queue.Values" = ["mutex:q.mx:RLock", "mutex:q.mx:RUnlock"] := by decide
+theorem pq_lock_skeletons :
+    skeletonOf "PriorityQueue.Enqueue" = ["atomic:q.closed:Load", "mutex:q.mx:Lock", "mutex:q.mx:Unlock"] ∧
+    skeletonOf "PriorityQueue.Dequeue" = ["mutex:q.mx:Lock", "mutex:q.mx:Unlock"] ∧
+    skeletonOf "PriorityQueue.Len" = ["mutex:q.mx:RLock", "mutex:q.mx:RUnlock"] ∧
+    skeletonOf "PriorityQueue.Purge" = ["mutex:q.mx:Lock", "mutex:q.mx:Unlock"] := by decide
+theorem list_lock_skeletons :
+    skeletonOf "List.PopBack" = ["mutex:l.mx:Lock", "mutex:l.mx:Unlock"] ∧ skeletonOf "List.Remove" = ["mutex:l.mx:Lock", "mutex:l.mx:Unlock"] ∧
+    skeletonOf "List.PushNode" = ["mutex:l.mx:Lock", "mutex:l.mx:Unlock"] := by decide
+theorem manager_lock_skeletons :
+    skeletonOf "Manager.GetRoundRobinItem" = ["mutex:m.mx:Lock", "mutex:m.mx:Unlock"] ∧ skeletonOf "Manager.Len" = ["mutex:m.mx:RLock", "mutex:m.mx:RUnlock"] ∧
+    skeletonOf "Manager.Register" = ["mutex:m.mx:Lock", "mutex:m.mx:Unlock"] := by decide
+
+/-- the wait condition reads Len() before curProcessing on a running worker (the dispatcher reserves before it dequeues) -/
+theorem wuf_condition_calls : callsOf "worker.WaitUntilFinished$1" = ["Load", "Len", "Load", "Load"] := by decide
+
+/-- the batch stream has one slot per item (NewResponse makes a channel of exactly the requested capacity), so a
+    worker never blocks in Response.Send -/
+theorem response_capacity_calls : callsOf "NewResponse" = ["make"] ∧ guardsOf "NewResponse" = [] := by decide
+
 end VarmqVerif.Tie
